@@ -17,10 +17,20 @@ def run(item):
     ok = p.returncode == 1 and any(re.search(spec['must_fail'], v) for v in viols)
     return name, ok, viols, p.returncode
 items = [(k, v) for k, v in sorted(exp.items()) if flt in k]
+# SELFTEST_DONE=<log of an earlier run>: skip the mutants it already lists; SELFTEST_STRIDE=n: every n-th of the rest
+done = set()
+if os.environ.get('SELFTEST_DONE'):
+    for l in open(os.environ['SELFTEST_DONE']):
+        f = l.split()
+        if len(f) >= 2 and f[0] in ('KILLED', 'SURVIVED'):
+            done.add(f[1])
+items = [it for it in items if it[0] not in done]
+stride = int(os.environ.get('SELFTEST_STRIDE', '1'))
+items = items[::stride]
 bad = 0
 with concurrent.futures.ThreadPoolExecutor(max_workers=int(os.environ.get("SELFTEST_WORKERS", "2"))) as ex:
     for name, ok, viols, rc in ex.map(run, items):
-        print(('KILLED  ' if ok else 'SURVIVED'), name, '->', viols[:3] if viols else 'exit %d, no violation' % rc)
+        print(('KILLED  ' if ok else 'SURVIVED'), name, '->', viols[:3] if viols else 'exit %d, no violation' % rc, flush=True)
         bad += 0 if ok else 1
 print(f'{len(items)-bad}/{len(items)} mutants killed')
 sys.exit(1 if bad else 0)
